@@ -159,7 +159,7 @@ c = S.ext("multiprocessing.util.is_exiting", cite="util.is_exiting(): whether th
 c.returns(T.Bool).event("is_exiting", "result").modifies()
 S.ext_consts["multiprocessing.queues._sentinel"] = __import__("pyvc.values", fromlist=["VConst"]).VConst("multiprocessing.queues._sentinel")
 
-c = M.contract("Queue._feed", props=["C04", "C15"])
+c = M.contract("Queue._feed", props=["C04", "C15", "C08"])   # C08: every slot of the call queue lost by the error path is a task that can no longer be handed to an idle worker
 c.param("buffer", T.Ref("deque")).param("notempty", T.Ref("threading.Condition")).param("send_bytes", T.FnT)
 c.param("writelock", T.Ref("MPLock")).param("close", T.FnT).param("reducers", T.Obj).param("ignore_epipe", T.Bool)
 c.param("onerror", T.FnT).param("queue_sem", T.Ref("MPLock"))
@@ -183,7 +183,7 @@ io.iter_post("error-path/slot-released-once-then-callback-with-the-faulty-object
              "tail(implies(count_events('user_call', lambda f: f is onerror) >= 1, "
              "count_events('user_call', lambda f: f is onerror) == 1 and count_events('release', lambda l: l is queue_sem) == 1 and "
              "ordered('release', lambda l: l is queue_sem, 'user_call', lambda f: f is onerror) and "
-             "implies(log_count('popleft') == 1, exists_event('user_call', lambda f, e, o: f is onerror and o is log_arg('popleft', 0, 1)))))", prop="C04")
+             "implies(log_count('popleft') == 1, exists_event('user_call', lambda f, e, o: f is onerror and o is log_arg('popleft', 0, 1)))))", prop=["C04", "C08"])
 io.iter_post("error-path/a-failed-send-is-always-reported",
              "tail(implies((log_count('raise:dumps') == 1 or count_events('user_raise', lambda f, e: f is send_bytes) == 1), "
              "count_events('user_call', lambda f: f is onerror) == 1))", prop="C04")
